@@ -131,23 +131,20 @@ theorem newWindow_step (content : Id → Int → Int → Cell) (screen : Int →
     rcases hcase x w hw with ⟨_, hw'⟩ | ⟨_, hw'⟩
     · exact hI.ord x w hw' ch hc
     · subst hw'; rw [hw0f.2.2.1] at hc; cases hc
-  have hro1 : RootOk t1 := by
-    obtain ⟨w, hw, rest⟩ := hI.root.ex
-    exact ⟨⟨w, by rw [h1_old 0 (lt_size_of_some hw)]; exact hw, rest⟩⟩
   have hpos1 : RootsPositive t1 := by
     intro x w hw hr
     rcases hcase x w hw with ⟨_, hw'⟩ | ⟨_, hw'⟩
     · exact hI.pos x w hw' hr
     · subst hw'; rw [hw0f.2.1] at hr; cases hr
   have h0lt : 0 < t.wins.size := by
-    obtain ⟨w, hw, _⟩ := hI.root.ex
+    obtain ⟨w, hw, _⟩ := hok.rootWin.ex
     exact lt_size_of_some hw
   have hown : ∀ L C, ownerAt t1 L C = ownerAt t L C := by
     intro L C
     rw [← ownerAt_fuel t1 hord1 (t.wins.size + 1) (by omega), ← ownerAt_fuel t hI.ord (t.wins.size + 1) (by omega)]
     exact ownerLoc_push t t1 h1_old hch _ 0 L C h0lt
   have hI1 : TInv content screen t1 :=
-    ⟨hok1, hord1, hro1, hpos1, by rw [h1_root]; exact hI.nonempty, by rw [h1_root]; exact hI.dinv, by
+    ⟨hok1, hord1, hpos1, by rw [h1_root]; exact hI.nonempty, by rw [h1_root]; exact hI.dinv, by
       intro L C w l c ho
       rw [hown] at ho
       rw [h1_root]
